@@ -32,7 +32,8 @@ CHECKS.update({
                 "optimiser.update_params call for every estimator and batch mode, no cross-sample reduction inside back-propagation, "
                 "loop protocol of both training loops, optimiser aliasing, formal sign; and the formulas: for 17 of the 18 estimators the direction "
                 "handed to the optimiser equals, as a canonical term, minus the symbolic chain rule of the GEMINI gradient through the model's "
-                "own _infer plus the gradient of its penalty. Douglas' backward pass is outside the translated subset (structural rules only).",
+                "own _infer plus the gradient of its penalty; Douglas' backward pass is decided against its forward pass by linear sequence maps and folded shape expressions "
+                "(C03-k..n); no gradient may be restricted to a data-dependent subset of entries (C03-o).",
         "note": "trusted: numpy shape semantics table; sklearn optimisers update params[i] in place with grads[i]; Douglas cut-point gradients "
                 "are outside the shape domain and excluded from the shape and sign rules.",
         "technique": "source-to-term translation with symbolic differentiation and canonical-form comparison + backward slicing on a CFG + "
@@ -52,8 +53,11 @@ CHECKS.update({
         "text": "The closed-form part of the property is decided exactly: index spaces of every stock read in the split finder (named-axis "
                 "interpretation of the desugared .pyx), each gain bundle's canonical rational form equals the objective increase derived "
                 "inside the checker by bilinearity of the kernel stock, tracker mirror symmetry, order-domain implication of the "
-                "running-best guards, admissibility guards, application in Kauri.fit. NOT decided: the incremental stock updates along "
-                "the scan, tie handling, floating-point error, and whether the prebuilt extension matches the .pyx.",
+                "running-best guards, admissibility guards, choice between the mixed reallocation pairs, application in Kauri.fit; and the loop invariant of the "
+                "threshold scan: every path through the scan body is interpreted in the kernel-stock domain (linear forms over sigma(x,Sl), sigma(x,x), "
+                "sigma(x,Sr-x), sigma(x,C_a)) and the four running stocks must have moved by exactly the bilinear increments, from initial stocks (empty, whole "
+                "leaf), starting at position 0 and reaching the last admissible cut. NOT decided: rounding-level ties, floating-point error, and whether the "
+                "prebuilt extension matches the .pyx.",
         "note": "trusted: the line-preserving Cython desugarer (regex over the subset used), true division, the stock signature table.",
         "technique": "algebraic value numbering (canonical rational forms) + named-axis abstract interpretation + mirror comparison + order-domain enumeration",
     },
@@ -143,8 +147,9 @@ CHECKS.update({
     },
     "C14": {
         "text": "Index spaces of the whole constraint machinery by named-axis interpretation through a decorated fit (graph positions vs sample "
-                "ids vs batch rows), sign/rows of the injected gradient by canonical linear forms and mirror comparison, validation wiring. The "
-                "breadth-first component search itself is trusted beyond its index spaces.",
+                "ids vs batch rows), sign/rows of the injected gradient by canonical linear forms and mirror comparison, validation wiring, and the component "
+                "search idiom (every search starts from a node no earlier search reached: worklist accepted, counter rejected, anything else undecided); "
+                "the orientation of the contradiction test incl. set-of-pairs lookups.",
         "note": "trusted: csgraph.breadth_first_order returns node ids of the adjacency matrix it is given.",
         "technique": "named-axis abstract interpretation (index spaces) + canonical linear forms + mirror comparison",
     },
